@@ -100,13 +100,18 @@ func (s *Service) Init(ctx context.Context) error {
 	var allPls []string
 
 	// delete duplicate pipelines (if any)
+	// The indexes refer to configs as it is now, so they are collected for all
+	// duplicated IDs first and removed in one go: removing them ID by ID would
+	// shift the entries the remaining indexes point at.
+	var allDuplicateIndexes []int
 	for duplicateID, duplicateIndexes := range s.findDuplicateIDs(configs) {
 		errs = append(errs, cerrors.Errorf("%d pipelines with ID %q will be skipped: %w", len(duplicateIndexes), duplicateID, ErrDuplicatedPipelineID))
-		configs = s.deleteIndexes(configs, duplicateIndexes)
+		allDuplicateIndexes = append(allDuplicateIndexes, duplicateIndexes...)
 
 		// duplicated IDs should still count towards all encountered pipeline IDs
 		allPls = append(allPls, duplicateID)
 	}
+	configs = s.deleteIndexes(configs, allDuplicateIndexes)
 
 	// remove pipelines with duplicate IDs from API pipelines
 	var apiProvisioned []int
